@@ -266,7 +266,7 @@ pub fn render_sourcemap(paths: &[String], sourcemap_path: &str, root_name: &str)
     render(root_name, &root)
 }
 
-pub const INPUT_DIRS: &[&str] = &["src", "in", "proj/src", "my src", "a.b"];
+pub const INPUT_DIRS: &[&str] = &["src", "in", "proj/src", "my src", "a.b", ".lune"];
 pub const SUB_DIRS: &[&str] = &[
     "", "", "sub", "sub/deep", "other dir", "dots.v1.2", "ünï", "..hidden", "sub/...",
 ];
@@ -1136,7 +1136,13 @@ pub fn gen_invocation(
                 format!("{}/../{}", first, project.input)
             }
         }
-        6 if climb && rng.chance(1, 2) => {
+        // (not when a file filter is anchored at the input directory: filters see the path
+        // as darklua spells it, `../cwd/src/...`)
+        6 if climb
+            && rng.chance(1, 2)
+            && !config_text.contains(&format!("\"{}/", normalize(&project.input)))
+            && !config_text.contains(&format!("\"{}/", parent(&normalize(&project.input)))) =>
+        {
             let first = project.input.split('/').next().unwrap_or("").to_owned();
             if first.is_empty() || project.input_is_file && !project.input.contains('/') {
                 format!("../{}/{}", cwd_name, project.input)
